@@ -162,7 +162,6 @@ def make_signal(N, K):
         where = f"interrupted before {fired['where']}: {fired['line']}"
         at = f" [interrupted before {fired['where'].split(':')[0]}: {fired['line']}]"
         ctx.prove(exit_code == fsam.exit_code, "handler exits with the configured exit code")
-        ctx.prove(ns.model.__dict__.get("closed_with") == signum, "the pool is closed with the signal number")
         ctx.prove("state" in snap and snap["file"] == "resume.pkl", "the handler wrote a checkpoint")
         if "state" not in snap:
             return
